@@ -197,6 +197,46 @@ def main():
             ck.violation('xrun (status %d, output %r) is not xcmp followed by hexsim (status %d, output %r)' % (rc3, o3[:40], rc2, o2[:40]),
                          {'source': src.decode()}, tags={'kind': 'cli', 'tool': 'xrun', 'class': 'accept'})
         shutil.rmtree(d, ignore_errors=True)
+    # ---- programs that read input: hexsim's and xrun's status/output = the ISA run of the compiled binary on the same
+    #      console bytes and stream files (bytes >= 0x80, 0xFF, end of file, missing/empty/exhausted simin files)
+    IO_PROGS = [b'val exit = 0;\nval get = 2;\nproc main() is exit(get(0))\n',
+                b'val exit = 0;\nval get = 2;\nproc main() is if get(0) = 255 then exit(33) else exit(22)\n',
+                b'val exit = 0;\nval get = 2;\nproc main() is if get(0) < 0 then exit(11) else exit(44)\n',
+                b'val exit = 0;\nval get = 2;\nval put = 1;\nvar c;\nproc main() is { c := get(0); while ~(c = 255) do { put(c, 0); c := get(0) }; exit(0) }\n',
+                b'val exit = 0;\nval get = 2;\nproc main() is exit(get(256))\n',
+                b'val exit = 0;\nval get = 2;\nvar c;\nvar n;\nproc main() is { n := 0; c := get(512); while ~(c = 255) do { n := n + 1; c := get(512) }; exit(0) }\n',
+                b'val exit = 0;\nval get = 2;\nvar c;\nproc main() is { c := get(768); c := get(768); exit(7) }\n']
+    IO_INPUTS = [b'', b'A', b'\x80', b'\xff', b'ab\xfe\n']
+    for pi, src in enumerate(IO_PROGS):
+        d = os.path.join(base, 'io%d' % pi)
+        os.makedirs(d, exist_ok=True)
+        open(os.path.join(d, 'in.src'), 'wb').write(src)
+        open(os.path.join(d, 'simin1'), 'wb').write(b'\x90xyz')      # stream 256
+        open(os.path.join(d, 'simin2'), 'wb').write(b'12345')         # stream 512: read to its end
+        # stream 768 (simin3) does not exist
+        rc1, o1, e1 = run3([tools['xcmp'], 'in.src', '-o', 't.bin'], cwd=d, timeout=60)
+        if rc1 != 0 or not os.path.exists(os.path.join(d, 't.bin')):
+            ck.violation('xcmp rejected an I/O test program: ' + e1.decode('latin1')[:120], {'source': src.decode()}, tags={'kind': 'cli', 'tool': 'xcmp', 'class': 'accept'})
+            continue
+        for inp in IO_INPUTS:
+            rcI, oI, eI = run3(vlib.big_stack([hv, 'c02run', 't.bin', '2000000']), cwd=d, input=inp, timeout=120)
+            li = oI.decode().split('\n')
+            try:
+                f = dict(x.split('=') for x in li[0].split()[2:])
+                exp_rc = int(f['rc']) & 0xff
+                exp_out = bytes(int(x) for x in li[2].split()[2:])
+                ended = li[0].split()[1]
+            except Exception:
+                continue
+            if ended != 'exit':
+                continue
+            for tool_, cmd in (('hexsim', [tools['hexsim'], 't.bin']), ('xrun', [tools['xrun'], 'in.src'])):
+                rcx, ox, ex = run3(cmd, cwd=d, input=inp, timeout=60)
+                ck.cov['evaluations'] += 1
+                if rcx != exp_rc or ox != exp_out:
+                    ck.violation('%s on a program that reads input %r: status %d output %r, the program (ISA run of its binary) exits with %d and writes %r' % (tool_, inp, rcx, ox[:30], exp_rc, exp_out[:30]),
+                                 {'source': src.decode(), 'input': list(inp), 'status': rcx, 'stderr': ex.decode('latin1')[:200]}, tags={'kind': 'cli', 'tool': tool_, 'class': 'io'})
+        shutil.rmtree(d, ignore_errors=True)
     ck.cov['distinct_nontrivial'] = len(cases)
     ck.cov['rule'] = 'every (tool, argv shape, source) triple: 11 argv shapes x accepted/rejected assembly and X sources; all distinct; all judged (standard shapes by the property table, all shapes against the model)'
     ck.cov['input_distribution'] = dist
